@@ -37,6 +37,37 @@ CHECKS = {
                 note="Trusted: Python int/Fraction arithmetic, hashlib.blake2b. hash == target equality is unreachable by search (stated in evidence). Miri stops at the first UB of a stage; UB inside the third-party numext crate is listed as known finding."),
 }
 
+
+POOL_NOTE = ("Trusted: the H5 dump is taken under the pool's own write lock; ckb-types accessors to read transactions; "
+             "the builder node stands for the rest of the network. Genuine tx-pool defects that are not repaired are listed in known_findings.json "
+             "by cause-specific signature suffixes computed by the harness (see DESIGN section 10).")
+CHECKS.update({
+    "C11": dict(engine="pool", category="exploration", design="4/C11",
+                technique="runtime monitoring: invariant recomputation over the pool dump (hook H5) after every operation of random op sequences on the real tx-pool service",
+                text="Random operation sequences (submissions over tx DAGs with chains, shared cell deps and header deps, conflicting submissions with RBF on/off, removals, expiry by virtual time, size-limit eviction with small limits, blocks and reorgs of depth 1..w_far+3, template mining) drive the real TxPoolService; after every operation the dump is judged by recomputation: no double spends, input/dep/header-dep indexes equal the entries, links symmetric and equal to actual spends/deps (L_min subset links subset L_allowed), ancestor/descendant aggregates equal a fold over the link closure (also as reported by get_all_entry_info), totals and per-status counters, ancestor limit, replacement fee accounting.",
+                note=POOL_NOTE),
+    "C12": dict(engine="pool", category="exploration", design="4/C12",
+                technique="runtime monitoring: pool dump vs RefChain after every tip change; reorg notification log (hook H5) vs model forks",
+                text="After every tip change (extension, reorg, own template mined) and logical pool quiescence: no pooled tx is committed on the model main chain, every input/dep is live there or a pooled output, header deps are on the main chain, transactions committed only on the abandoned branch and absent from the pool are not admissible (test_accept_tx) unless policy explains it, each entry's stage equals the model's window classification (mine mode), and the pool received one notification per tip change with the model's detached/attached blocks and dropped proposal ids.",
+                note=POOL_NOTE),
+    "C13": dict(engine="pool", category="exploration", design="4/C13",
+                technique="runtime monitoring: every template is sealed and run through the node's own full verification on a dropped store transaction; a fraction is mined on the node and on a second node",
+                text="Templates requested after every pool/chain operation are converted exactly as the miner does, sealed, and run through HeaderVerifier, BlockVerifier, NonContextualBlockTxsVerifier and ContextualBlockVerifier (non-committing) on the node itself; size/cycle limits, parents-first order and in-window proposals are checked structurally; ~45% are mined: the node and a second node must accept them.",
+                note=POOL_NOTE),
+    "C15": dict(engine="codec", category="exploration", design="4/C15",
+                technique="runtime monitoring: differential against an independent molecule implementation and hash definitions (oracles/molecule.py) over schema-driven values and mutations",
+                text="Schema-driven random values and single-field/byte/offset mutations for all 127 packed types: strict/compatible acceptance must agree with the independent validator, accepted bytes must be reproduced by a field-by-field rebuild, packed<->JSON round trips, every hash recomputed by the Python oracle from its own parse, cached hashes of views built through every constructor path.",
+                note="Trusted: Python hashlib.blake2b; the .mol schema files as the specification of the encodings."),
+    "C16": dict(engine="codec-hostile", category="exploration", design="4/C16",
+                technique="runtime monitoring: hostile byte strings through decoders and every accessor/verifier under catch_unwind in child processes; libFuzzer+ASan and Miri in the thorough tier",
+                text="Random bytes and well-formedness-keeping/-breaking mutations of valid messages for every protocol and consensus type go through from_slice/from_compatible_slice, and on success through every accessor, conversion, hash and context-free verifier behind the node's own guards; panics, aborts (child processes, bisected) and super-linear time are the refuting events; compress/decompress frames incl. oversized declarations. Thorough adds 7 libFuzzer+ASan targets and a Miri pass. Part (c) (block reconstruction) is served by engine relay when present.",
+                note="Trusted: the harness replicates the synchronizer/relayer guards (extra-field count, BlockV1 validity, check_data) before the calls the node makes next. MAX_UNCOMPRESSED_LEN hard-coded (private constant)."),
+    "C17": dict(engine="structs", category="exploration", design="4/C17",
+                technique="runtime monitoring: bounded-exhaustive and random op sequences against reference models; Wing-Gong linearizability check of concurrent HeaderMap histories with delays at hook points",
+                text="OrphanBlockPool vs set model (all op sequences <=5/6 over all forest shapes <=5 blocks, random to 200 blocks, concurrent conservation), InflightBlocks vs map model under virtual time (exhaustive <=4/5 ops, random, eviction workloads), HeaderMap vs HashMap with spills at every position (sequences <=7/8, limits 1-3) and concurrent per-key linearizability, skip-list ancestors and locators vs parent walking.",
+                note="Trusted: virtual time (ckb-systemtime faketime). Concurrency defects of HeaderMap and one InflightBlocks defect are known findings."),
+})
+
 NOT_YET = "check under construction (DESIGN.md section 4); not claimed yet"
 
 checks = []
@@ -58,6 +89,12 @@ engines = [
      "kind_free_text": "real nodes + builder node + RefChain model; hooks H1/H3"},
     {"name": "arith", "path": "harness/varith", "serves_properties": ["C07"],
      "kind_free_text": "API driver + oracles/arith.py exact oracle; harness-miri/arith"},
+    {"name": "pool", "path": "harness/vmon/src/engines/pool.rs", "serves_properties": ["C11", "C12", "C13"],
+     "kind_free_text": "real tx-pool service + builder node + RefChain; hook H5"},
+    {"name": "codec", "path": "harness/vcodec", "serves_properties": ["C15", "C16"],
+     "kind_free_text": "oracles/molecule.py independent codec; harness-fuzz; harness-miri/codec"},
+    {"name": "structs", "path": "harness/vstructs", "serves_properties": ["C17"],
+     "kind_free_text": "reference models + linearizability checker; hooks H3/H4/H7"},
 ]
 
 m = {
